@@ -7,6 +7,18 @@ CHECKS = {
  "C01": ("exploration", "reference-model monitor (maximal-live-candidate versioned map) over resolver calls on enumerated DAG shapes x placements and over recorded HTTP histories",
          "Every DAG shape with <=5 nodes (all ordered merge-parent lists) x every value/tombstone/nothing placement x every queried node is executed against the real resolver (exhaustive slice), larger DAGs and real put/delete/commit/branch/merge HTTP histories are sampled; the oracle is order-free so entry order and parent order are covered by shuffling/permutation.",
          "Trusts the 40-line reference model in harness/internal/dvc/dag.go; DAGs >10 nodes and >4 merge parents are not explored; Badger itself is trusted.", "3/C01"),
+ "C04": ("fault_enumeration", "crash injection at every store write / log append through wrapping engines + reference-snapshot comparison after restart; byte-level tearing of append-only logs against a reference framing parser",
+         "A deterministic mixed workload is censused (every write numbered, reference snapshot after every operation); the server is then killed before write N for every N (sampled stride in quick, all in thorough, plus 'after' at operation boundaries and a second crash at every write of the recovery start-up for a sample); after restart the repo metadata must satisfy the C07 invariants, everything the interrupted operation cannot touch must equal the acknowledged prefix, atomic repo-level/single-key operations must be all-or-nothing, and the server must be usable. Log files are truncated at every byte offset of their tail records and read through the real filelog store.",
+         "Process death (SIGKILL), not power loss; crash granularity is the store-call boundary (Badger's own commit is trusted); 'cannot touch' = other instances/sync groups and other versions than the open leaf the request addressed.", "3/C04"),
+ "C06": ("exploration", "round-trip / injectivity / order oracles over storage key functions (probe, plain + checkptr) and before/after snapshots + store-dump + write-log audit of untouched instances in live create/write/delete/re-create histories",
+         "Key tuples over boundary ids and every data type's tkey constructors are checked for round trip, injectivity, byte order == (instance, tkey, version) order, contiguity and foreign keys in ranges; live histories delete and re-create instances (incl. ids near 2^32) and compare every other instance's reads and raw stored entries after every operation.",
+         "Instance deletion is reached through the RPC-equivalent datastore call (no HTTP route exists); sorting with bytes.Compare stands for Badger's order.", "3/C06"),
+ "C12": ("fault_enumeration", "offline checker over the recorded id event log (uniqueness, real-time-order monotonicity by interval sweep, freshness) + crash injection before every write of an allocation script",
+         "Ids are taken from acknowledged responses (MutationID, CleavedLabel, Split/RemainSupervoxel, nextlabel ranges), VersionIDs from repo JSON, repo/instance ids from the store write log; histories mix allocations with ingests of arbitrary large labels, 3-8-way concurrent allocation phases, restarts and a crash before every store write of an allocation script that crosses the mutation-id persistence stride.",
+         "Concurrent stamps come from the worker's monotonic clock around ServeSingleHTTP; an allocation racing an unsettled ingest is counted, not judged.", "3/C12"),
+ "C17": ("exploration", "reference-model monitor (sparse per-version block model) over recorded write/read histories on every imageblk voxel type",
+         "Unique voxel contents per (write, block, voxel) are written (ingest, mutate, ROI-restricted, POST blocks) at block coordinates in [-3,3]^3 over several versions and read back through 3-D boxes of every alignment class, 2-D PNG slices in three planes, blocks/subvolblocks/specificblocks streams and advertised extents.",
+         "Lossy or compressed stream formats (jpeg, lz4) are not decoded; ROI always has the instance's block size.", "3/C17"),
  "C07": ("exploration", "invariant monitor on /api/repos/info after every request + model agreement (accepted) + frame condition on graph, branch-head and per-uuid resolution (rejected)",
          "Random hostile request sequences over the whole repo-level vocabulary (incl. RPC-mirrored delete/rename) with duplicate / malformed / foreign arguments; after every request the server's own JSON is checked for single root, acyclicity, mirrored links, unique UUIDs and version ids, committed parents, linear named branches, and rejected requests are checked to leave graph, heads and uuid resolution untouched.",
          "Branch-head and uuid resolution are observed through a 'whoami' key of a keyvalue instance; only newly introduced conditions are attributed to a request; repeated merge parents (a mirrored multi-edge) are counted as observation, not violation.", "3/C07"),
